@@ -275,6 +275,14 @@ func (s *Store) startOrReuseFile() (fref *FileRef, file File, err error) {
 
 			return fref, file, nil
 		}
+
+		// The top-level collection has no persisted segments, but a
+		// child collection might: keep appending to that same file.
+		if fref := s.footer.childFileRef(); fref != nil {
+			file := fref.AddRef()
+
+			return fref, file, nil
+		}
 	}
 
 	return s.startFileLOCKED()
